@@ -311,3 +311,124 @@ def run(F, rep, tier):
             rep.check(ww == rr, "C07-R2", "header:write-read-widths", "header is written as %s but read as %s" % (ww, rr), sample={"widths": ww})
             if hsize is not None:
                 rep.check(total(hw) == hsize, "C07-R2", "header:size-constant", "ByteCodeHeader::write_to writes %d bytes but HEADER_SIZE = %s" % (total(hw), hsize), sample={"written": total(hw), "HEADER_SIZE": hsize})
+    run_r5(F, rep, crate, cg)
+
+
+def _int_eval(e):
+    from lib.facts import is_node
+    if not is_node(e):
+        return None
+    if e[0] == "int":
+        try:
+            return int(re.sub(r"[^0-9].*$", "", str(e[1])))
+        except ValueError:
+            return None
+    if e[0] == "paren":
+        return _int_eval(e[1])
+    if e[0] == "bin" and e[1] in ("+", "*", "-"):
+        a, b = _int_eval(e[2]), _int_eval(e[3])
+        if a is None or b is None:
+            return None
+        return a + b if e[1] == "+" else a * b if e[1] == "*" else a - b
+    return None
+
+
+def _err_guards(stmts, off):
+    """top-level `if VAR < N { .. return Err .. }` statements -> [(var, N + offset(var), text)]"""
+    from lib.facts import is_node, walk, render
+    out = []
+    for st in stmts:
+        if st[0] != "expr" or not is_node(st[1]) or st[1][0] != "if":
+            continue
+        c = st[1][1]
+        if not (is_node(c) and c[0] == "bin" and c[1] in ("<", "<=") and is_node(c[2]) and c[2][0] == "path"):
+            continue
+        if not any(n[0] == "ret" and n[1] is not None and render(n[1]).startswith("Err(") for s2 in st[1][2] for n in walk(s2)):
+            continue
+        v = c[2][1]
+        n = _int_eval(c[3])
+        if v in off and n is not None:
+            out.append((v, n + off[v] + (1 if c[1] == "<=" else 0), render(c)))
+        elif v in off:
+            out.append((v, None, render(c)))
+    return out
+
+
+def run_r5(F, rep, crate, cg):
+    """C07-R5: the instruction decoder's truncation guards ask for no more bytes than the instruction occupies"""
+    from lib.facts import find, walk, is_node, render, render_pat, path_of, last_seg
+    from lib import codec as C
+    from lib import fxn as X
+    rep.rule("C07-R5", "decode_instructions: every `remaining < N => TruncatedInstruction` guard asks for at most the bytes the opcode's arm consumes (a stricter guard rejects a valid emitted file that ends with that instruction)")
+    core = F.syn(crate)
+    dec = [it for it in core if it["k"] == "fn" and it["name"] == "decode_instructions"]
+    if not rep.check(len(dec) == 1, "C07-R5", "anchor:decode_instructions", "decode_instructions not found"):
+        return
+    loops = list(find(dec[0]["body"], "while")) + list(find(dec[0]["body"], "loop"))
+    if not rep.check(len(loops) >= 1, "C07-R5", "anchor:loop", "decode loop not found"):
+        return
+    body = loops[0][2] if loops[0][0] == "while" else loops[0][1]
+    off = {}
+    for st in body:
+        if st[0] == "let" and st[1][0] == "pident" and st[2] is not None:
+            txt = render(st[2])
+            if re.search(r"len\(\)\s*-\s*\(?\w+", txt) and "position" not in txt.split("-")[0]:
+                off[st[1][1]] = 0
+            elif is_node(st[2]) and st[2][0] == "bin" and st[2][1] == "-" and is_node(st[2][2]) and st[2][2][0] == "path" and st[2][2][1] in off and _int_eval(st[2][3]) is not None:
+                off[st[1][1]] = off[st[2][2][1]] + _int_eval(st[2][3])
+    top = _err_guards(body, off)
+    # which opcodes can a compiled program contain: EncodedInstr variant -> OpCode (from the encoder), emitted iff its emit_* method has a caller
+    enc_op = {}
+    for it in core:
+        if it["k"] == "method" and it["name"] == "write_to" and X.type_head(it["self"]) == "EncodedInstr":
+            for v, a in C.arms_of(it["body"], "EncodedInstr").items():
+                ops = [re.search(r"OpCode::(\w+)", x[1]).group(1) for x in walk(a[2]) if x[0] == "path" and re.search(r"OpCode::(\w+)", x[1])]
+                if ops:
+                    enc_op[v] = ops[0]
+    emitted = set()
+    called = set()
+    for c in sorted(set(X.FXN_CRATES) | {"mech_core.lib", "mech_interpreter.lib"}):
+        for b in F.bodies(c):
+            for _, t in b.calls():
+                mm = re.search(r"CompileCtx::(emit_\w+)$", t.get("f") or t.get("tf") or "")
+                if mm:
+                    called.add(mm.group(1))
+    for it in core:
+        if it["k"] == "method" and it["name"].startswith("emit_") and X.type_head(it["self"]) == "CompileCtx":
+            vs = {re.match(r"EncodedInstr::(\w+)", s[1]).group(1) for s in find(it["body"], "struct") if re.match(r"EncodedInstr::(\w+)", s[1])}
+            if it["name"] in called:
+                emitted |= {enc_op.get(v) for v in vs}
+    rep.floor("C07-R5", "opcodes a compiled program can contain", len(emitted - {None}), 5)
+    n = 0
+    for m in find(body, "match"):
+        arms = {}
+        for a in m[2]:
+            mm = re.search(r"OpCode::(\w+)", render_pat(a[0]))
+            if mm:
+                arms[mm.group(1)] = a
+        if len(arms) < 5:
+            continue
+        for op, a in sorted(arms.items()):
+            fixed = 0
+            loop_nodes = [id(x) for lp in (list(find(a[2], "for")) + list(find(a[2], "while"))) for x in walk(lp)]
+            for nnode in walk(a[2]):
+                if nnode[0] == "mcall" and id(nnode) not in loop_nodes:
+                    w = re.match(r"read_(u8|u16|u32|u64|i8|i16|i32|i64|f32|f64)$", nnode[2])
+                    if w:
+                        fixed += C.W[w.group(1)]
+            has_loop = bool(loop_nodes)
+            size = 1 + fixed
+            stm = a[2][1] if is_node(a[2]) and a[2][0] == "block" else []
+            for scope, guards in (("instruction", top if op in emitted else []), ("arm", _err_guards(stm, off))):
+                for v, need, txt in guards:
+                    n += 1
+                    key = "%s:%s:%s" % (op, scope, v)
+                    if need is None:
+                        rep.ok("C07-R5", key, sample={"opcode": op, "guard": txt, "verdict": "bound depends on a decoded count"})
+                        continue
+                    rep.check(need <= size or (has_loop and False), "C07-R5", key,
+                              "decode_instructions, opcode %s: the guard `%s` requires %d bytes from the start of the instruction, but the instruction occupies %d%s: a valid program that ends with this instruction is rejected as truncated" % (
+                                  op, txt, need, size, " (+ its variable-length tail)" if has_loop else ""),
+                              "decode_instructions (%s)" % crate, sample={"opcode": op, "guard": txt, "required": need, "instruction_bytes": size})
+        break
+    rep.floor("C07-R5", "truncation guards compared with instruction sizes", n, 5)
